@@ -337,5 +337,5 @@ class Capabilities(dict[int, Capability]):
                     capability, capv, value = _key_values('capability', value)
                     capabilities[capability] = Capability.unpack(CapabilityCode(capability), capabilities, capv)
             else:
-                raise Notify(2, 0, 'Unknow OPEN parameter {}'.format(hex(key)))
+                raise Notify(2, 4, 'Unknown OPEN parameter {}'.format(hex(key)))
         return capabilities
